@@ -13,7 +13,7 @@ H = "simkit.check_history"
 SPECS = {
     "C01": {
         "driver": H, "level": "exploration",
-        "runs": {"quick": 4000, "thorough": 400000},
+        "runs": {"quick": 4000, "thorough": 200000},
         "rule": "seeded histories (5-40 ops quick / up to 200 thorough) of the full mutation "
                 "alphabet with declared-invalid arguments and callback faults on 1-2 trees; "
                 "after every step the well-formedness predicates are evaluated through the "
@@ -27,7 +27,7 @@ SPECS = {
     },
     "C02": {
         "driver": H, "level": "exploration",
-        "runs": {"quick": 4000, "thorough": 400000},
+        "runs": {"quick": 4000, "thorough": 200000},
         "rule": "seeded clone-heavy histories (small label alphabets, set_data on single nodes "
                 "and groups, merges, removes, filter) over all data flavours; after every step "
                 "every lookup and clone query is compared with the carriers found by walking "
@@ -39,7 +39,7 @@ SPECS = {
     },
     "C03": {
         "driver": H, "level": "exploration",
-        "runs": {"quick": 4000, "thorough": 400000},
+        "runs": {"quick": 4000, "thorough": 200000},
         "rule": "seeded histories with collision steering (the model proposes arguments that "
                 "would create a duplicate sibling by add/copy/move/un-nest/set_data); invariant "
                 "after every step + every steered collision must raise UniqueConstraintError. "
@@ -49,11 +49,11 @@ SPECS = {
         "assumptions": ASSUME_COMMON,
         "rebuild_mod": "simkit.peer",
         "extra_blocks": [{"engine": "peer", "mod": "simkit.peer", "fn": "peer_block",
-                          "runs": {"quick": 300, "thorough": 20000}}],
+                          "runs": {"quick": 300, "thorough": 10000}}],
     },
     "C04": {
         "driver": H, "level": "exploration",
-        "runs": {"quick": 4000, "thorough": 400000},
+        "runs": {"quick": 4000, "thorough": 200000},
         "rule": "seeded histories of documented-valid operations; after every step the full "
                 "observable state (identity, data identity, data_id, kind, meta, parent, order) "
                 "must equal the reference model's. Non-trivial: >= 3 successful mutations and a "
@@ -64,7 +64,7 @@ SPECS = {
     },
     "C05": {
         "driver": H, "level": "exploration",
-        "runs": {"quick": 3000, "thorough": 200000},
+        "runs": {"quick": 3000, "thorough": 100000},
         "rule": "restart steps (save -> drop every live object -> load -> continue the history on "
                 "the loaded tree) at random points of seeded histories under a swarm of storage "
                 "options (key_map x value_map x compression x path/stream x mapper style x user "
@@ -77,7 +77,7 @@ SPECS = {
     },
     "C12": {
         "driver": H, "level": "exploration",
-        "runs": {"quick": 3000, "thorough": 200000},
+        "runs": {"quick": 3000, "thorough": 100000},
         "rule": "writing side: at every restart step the bytes nutree wrote are decoded by an "
                 "independent reference codec of the documented layout and compared with the "
                 "model (header, pre-order, 1-based parent positions, clone references, key/value "
@@ -87,11 +87,11 @@ SPECS = {
         "assumptions": ASSUME_COMMON,
         "rebuild_mod": "simkit.peer",
         "extra_blocks": [{"engine": "peer", "mod": "simkit.peer", "fn": "peer_block",
-                          "runs": {"quick": 600, "thorough": 40000}}],
+                          "runs": {"quick": 600, "thorough": 20000}}],
     },
     "C14": {
         "driver": H, "level": "exploration",
-        "runs": {"quick": 3000, "thorough": 200000},
+        "runs": {"quick": 3000, "thorough": 100000},
         "rule": "restart steps through the dict form (to_dict_list -> optional JSON dump/load -> "
                 "from_dict -> continue) inside seeded histories of untyped trees; the structure "
                 "must mirror the model and the rebuilt tree must equal the model projected "
@@ -102,7 +102,7 @@ SPECS = {
     },
     "C06": {
         "driver": H, "level": "exploration",
-        "runs": {"quick": 3000, "thorough": 200000},
+        "runs": {"quick": 3000, "thorough": 100000},
         "rule": "read steps on states reached by seeded histories: every iteration method from "
                 "tree or node start (add_self on/off) compared with the model order; visit() "
                 "with a simulator-owned callback that returns or raises a skip/stop signal in "
@@ -114,7 +114,7 @@ SPECS = {
     },
     "C18": {
         "driver": "simkit.check_c18", "level": "exploration",
-        "runs": {"quick": 3000, "thorough": 300000},
+        "runs": {"quick": 3000, "thorough": 150000},
         "rule": "one shared tree (plain or typed), 1-2 writer threads mutating only inside "
                 "`with tree:` (2+ mutations per critical section with pauses in between, "
                 "sometimes a nested `with tree:` + snapshot), 1-3 reader threads calling save, "
@@ -167,7 +167,7 @@ SPECS = {
     },
     "C07": {
         "driver": H, "level": "exploration",
-        "runs": {"quick": 4000, "thorough": 400000},
+        "runs": {"quick": 4000, "thorough": 200000},
         "rule": "seeded multi-tree histories in which nodes, branches and whole trees are "
                 "copied between and within trees (shallow/deep, all positions) and both sides "
                 "keep mutating; the source's observable state is compared before/after each "
@@ -181,7 +181,7 @@ SPECS = {
     },
     "C08": {
         "driver": H, "level": "exploration",
-        "runs": {"quick": 4000, "thorough": 400000},
+        "runs": {"quick": 4000, "thorough": 200000},
         "rule": "seeded histories with in-place filter steps (and copy-form filters on the same "
                 "state) under per-node verdict plans drawn from {True, False, None, SkipBranch, "
                 "SkipBranch(and_self=False), SelectBranch, StopTraversal} x {returned, raised}; "
@@ -192,9 +192,9 @@ SPECS = {
     },
     "C13": {
         "driver": H, "level": "fault_enumeration",
-        "runs": {"quick": 3000, "thorough": 300000},
+        "runs": {"quick": 3000, "thorough": 150000},
         "extra_blocks": [{"engine": "enum", "mod": "simkit.enum13", "fn": "enum_block",
-                          "runs": {"quick": 150, "thorough": 10000}}],
+                          "runs": {"quick": 150, "thorough": 5000}}],
         "exhaustive_note": "fault positions k are enumerated completely for each sampled base "
                            "history (coverage.enum); base histories themselves are sampled",
         "rule": "part 1 (sampled): seeded histories in which operations with declared-invalid "
